@@ -623,7 +623,7 @@ class C08(Check):
 
     def run_shard(self, tier, seed, shard, nshards):
         res = ShardResult()
-        n = 9000 if tier == "thorough" else 900
+        n = 6000 if tier == "thorough" else 900
         cnt = [0]
 
         def one(spec):
